@@ -73,6 +73,7 @@ fn expr0(g: &G, pr: bool) -> Option<String> {
         Labelled(a, true) => format!("({}).labelled(\"L\").as_context()", expr(a, pr)?),
         MapErr(a) => format!("({}).map_err(st::tag_err)", expr(a, pr)?),
         Rep(a, bd, s) => sink(format!("({}).repeated(){}", expr(a, pr)?, bounds(bd)?), s, pr)?,
+        IntoIter(a, s) => sink(format!("({}).map(st::items).into_iter()", expr(a, pr)?), s, pr)?,
         SepBy(a, sp, bd, l, t, s) => sink(
             format!("({}).separated_by({}){}{}{}", expr(a, pr)?, expr(sp, pr)?, bounds(bd)?, if *l { ".allow_leading()" } else { "" }, if *t { ".allow_trailing()" } else { "" }),
             s,
